@@ -169,17 +169,26 @@ Definition agrees (r : result (list Z)) (o : obs) : bool :=
 Definition extends_b (m m' : list (label * Z)) : bool :=
   forallb (fun lp => option_eqb Z.eqb (zassoc (fst lp) m') (zassoc (fst lp) m)) m.
 
+(* a registered map is well formed: every position is a valid index of the block and no two simulants share one - the
+   hypotheses of C02_distinct_positions (conclusions of C03_in_range / C03_injective), validated on EVERY map the
+   correspondence sees *)
+Fixpoint nodup_z (l : list Z) : bool := match l with [] => true | x :: r => negb (zmem x r) && nodup_z r end.
+Definition map_wf (size : Z) (m : list (label * Z)) : bool :=
+  forallb (fun lp => (0 <=? snd lp) && (snd lp <? size)) m && nodup_z (map snd m).
+Definition imap_wf (w : imap) : bool := match w with CRN s (Some m) => map_wf s m | _ => true end.
+
 Fixpoint run_cops (blk : Z -> Z -> Z) (w : imap) (ops : list cop) : bool :=
   match ops with
   | [] => true
   | CCall crn_init sk idx o :: r => agrees (get_draw Z blk crn_init w sk idx) o && run_cops blk w r
   | CRegister m' :: r =>
       match w with CRN _ (Some m) => extends_b m m' | _ => true end
+      && imap_wf (step Z w (ORegister m'))
       && run_cops blk (step Z w (ORegister m')) r
   end.
 
 Definition check_req (c : req_case) : bool :=
-  let '(w, tbl, ops) := c in run_cops (tbl_block tbl) w ops.
+  let '(w, tbl, ops) := c in imap_wf w && run_cops (tbl_block tbl) w ops.
 
 (* ------------------------------------------------------------------------------------------------------------
    correspondence stream `unrel`: two requests for the same simulants, together with the seed strings the
@@ -303,6 +312,7 @@ Fixpoint run_mops (blk : Z -> Z -> Z) (g : mgr) (seen : list (Z * Z * Z)) (ops :
       end
   | MReg m' :: r =>
       match g_map g with CRN _ (Some m) => extends_b m m' | _ => true end
+      && imap_wf (g_map (fst (mstep Z Z (fun _ sk _ => sk) blk g (RReg m'))))
       && run_mops blk (fst (mstep Z Z (fun _ sk _ => sk) blk g (RReg m'))) seen r
   | MCall dp sk idx o :: r =>
       match mstep Z Z (fun _ sk _ => sk) blk g (RDraw dp sk idx) with
@@ -314,4 +324,5 @@ Fixpoint run_mops (blk : Z -> Z -> Z) (g : mgr) (seen : list (Z * Z * Z)) (ops :
 
 Definition check_mgr (c : mgr_case) : bool :=
   let '(cfg, w, tbl, ops) := c in
+  imap_wf w &&
   run_mops (tbl_block tbl) {| g_seed := manager_seed (fst cfg) (snd cfg); g_map := w; g_dps := [] |} [] ops.
